@@ -8,7 +8,7 @@ W=/tmp/seed/$id; O=/tmp/seed/$id-out
 cd $W || exit 2
 git checkout -q -- . ; rm -f $pkg/zz_seed_demo_test.go
 git apply $O/patch.diff || { echo "PATCH DOES NOT APPLY"; exit 2; }
-go build ./... || { echo "DOES NOT COMPILE"; exit 2; }
+go build ./pkg/... ./apis/... ./cmd/... || { echo "DOES NOT COMPILE"; exit 2; }
 cp $O/$demo $pkg/zz_seed_demo_test.go
 echo "--- demo WITH change (expect FAIL)"; timeout 900 go test -vet=off -count=1 -run "$pat" ./$pkg/ 2>&1 | tail -4
 rm -f $pkg/zz_seed_demo_test.go
